@@ -23,6 +23,11 @@ fn op_budget(len: usize) -> u64 {
 /// Feed one byte string to the archive-level readers and everything that can be done with the
 /// result. Any returned value is accepted; only not returning properly is a refutation.
 pub fn exercise_archive(ctx: &mut Ctx, bytes: &[u8], label: &str, class: &str) {
+    if ctx.sub == "miri" && bytes.get(97) == Some(&4) {
+        // Miri cannot cross the FFI boundary into zstd
+        ctx.count("miri_skipped_zstd");
+        return;
+    }
     let est = estimate(bytes);
     ctx.count(&format!("class.{class}.inputs"));
     if est.capped {
@@ -178,6 +183,9 @@ pub fn exercise_archive(ctx: &mut Ctx, bytes: &[u8], label: &str, class: &str) {
 pub fn exercise_dir(ctx: &mut Ctx, bytes: &[u8], label: &str) {
     let m = || mat(label, bytes);
     for codec in R::CODECS {
+        if ctx.sub == "miri" && codec != R::C_NONE {
+            continue;
+        }
         let comp = gen::comp(codec);
         match guard(|| Directory::from_bytes(bytes, comp).map(|d| d.len())) {
             Ok(Ok(_)) => ctx.count("dir.ok"),
@@ -236,12 +244,12 @@ fn base_archive(codec: u8, root: MDir) -> MArchive {
 }
 
 /// The crafted corpus: (hazard class, label, archive bytes)
-pub fn crafted(rng: &mut Rng) -> Vec<(String, String, Vec<u8>)> {
+pub fn crafted(rng: &mut Rng, codecs: &[u8], small_only: bool) -> Vec<(String, String, Vec<u8>)> {
     let mut v: Vec<(String, String, Vec<u8>)> = Vec::new();
     let mut add = |class: &str, label: String, a: &MArchive, rng: &mut Rng| {
         v.push((class.to_string(), label, a.assemble(rng)));
     };
-    for codec in R::CODECS {
+    for &codec in codecs {
         let cn = R::codec_name(codec);
         // entry counts near 2^64
         for count in [1u64 << 60, 1 << 40, 1 << 31, 1 << 27, u64::MAX, (1 << 63) + 1, u64::MAX / 24, u64::MAX / 24 + 1] {
@@ -350,7 +358,7 @@ pub fn crafted(rng: &mut Rng) -> Vec<(String, String, Vec<u8>)> {
         }
         // pointer chains of various lengths (legal but deep: Err or Ok are both fine)
         for links in [3usize, 5, 9, 17, 100, 1000, 100_000] {
-            if links == 100_000 && codec != R::C_NONE {
+            if links == 100_000 && codec != R::C_NONE || small_only && links > 100 {
                 continue;
             }
             let mut a = base_archive(codec, MDir::default());
@@ -380,9 +388,10 @@ pub fn crafted(rng: &mut Rng) -> Vec<(String, String, Vec<u8>)> {
                 m
             }),
             ("deep JSON nesting 100000", {
-                let mut m = b"{\"a\":".repeat(100_000);
+                let depth = if small_only { 300 } else { 100_000 };
+                let mut m = b"{\"a\":".repeat(depth);
                 m.extend(b"1");
-                m.extend(vec![b'}'; 100_000]);
+                m.extend(vec![b'}'; depth]);
                 m
             }),
             ("non UTF-8 metadata", vec![0xff, 0xfe, 0x80, 0x00, 0xc3, 0x28]),
@@ -452,10 +461,13 @@ pub fn crafted_dirs() -> Vec<(String, Vec<u8>)> {
 pub fn run(ctx: &mut Ctx) {
     let mut case = 0u64;
     let miri = ctx.sub == "miri";
+    if miri {
+        hostile::NO_ZSTD.store(true, std::sync::atomic::Ordering::Relaxed);
+    }
     // ---- (a) crafted corpus, one case each
-    let corpus = crafted(&mut ctx.rng("c08.crafted", 0));
+    let corpus = if miri { crafted(&mut ctx.rng("c08.crafted", 0), &[R::C_NONE], true) } else { crafted(&mut ctx.rng("c08.crafted", 0), &R::CODECS, false) };
     for (class, label, bytes) in &corpus {
-        if miri && (bytes.len() > 2000 || !label.starts_with("none")) {
+        if miri && bytes.len() > 2000 {
             case += 1;
             continue;
         }
@@ -499,8 +511,10 @@ pub fn run(ctx: &mut Ctx) {
         let mut rng = ctx.rng("c08.small", 0);
         small.push((String::from("root-only/none"), MArchive::valid(&mut rng, R::C_NONE, 6, 0, false).assemble(&mut rng)));
         small.push((String::from("leaves/none"), MArchive::valid(&mut rng, R::C_NONE, 8, 3, true).assemble(&mut rng)));
-        small.push((String::from("root-only/gzip"), MArchive::valid(&mut rng, R::C_GZIP, 6, 0, false).assemble(&mut rng)));
-        if !ctx.quick() {
+        if !miri {
+            small.push((String::from("root-only/gzip"), MArchive::valid(&mut rng, R::C_GZIP, 6, 0, false).assemble(&mut rng)));
+        }
+        if !ctx.quick() && !miri {
             small.push((String::from("leaves/gzip"), MArchive::valid(&mut rng, R::C_GZIP, 8, 2, false).assemble(&mut rng)));
             small.push((String::from("leaves/brotli"), MArchive::valid(&mut rng, R::C_BROTLI, 8, 2, false).assemble(&mut rng)));
             small.push((String::from("leaves/zstd"), MArchive::valid(&mut rng, R::C_ZSTD, 8, 2, true).assemble(&mut rng)));
@@ -514,7 +528,7 @@ pub fn run(ctx: &mut Ctx) {
         if PMTiles::from_bytes(arch.clone()).is_err() {
             ctx.inconclusive(&format!("control archive {name} does not open"));
         }
-        let step = if miri { 7 } else { 1 };
+        let step = if miri { 11 } else { 1 };
         for n in (0..arch.len()).step_by(step) {
             if ctx.mine(case) {
                 ctx.begin(case);
@@ -544,7 +558,7 @@ pub fn run(ctx: &mut Ctx) {
     ctx.extra("small_archives", json!(small.iter().map(|(n, a)| json!({"name": n, "len": a.len()})).collect::<Vec<_>>()));
 
     // ---- (c) structure-aware mutations
-    let nmut = if miri { 120 } else { ctx.n(200_000, 4_000_000) };
+    let nmut = if miri { 200 } else { ctx.n(200_000, 4_000_000) };
     let per_case = 50u64;
     for blk in 0..nmut / per_case {
         if ctx.mine(case) {
@@ -574,7 +588,7 @@ pub fn run(ctx: &mut Ctx) {
         case += 1;
     }
     // splices of two valid archives / random garbage
-    let nsplice = if miri { 10 } else { ctx.n(2_000, 40_000) };
+    let nsplice = if miri { 0 } else { ctx.n(2_000, 40_000) };
     for i in 0..nsplice {
         if ctx.mine(case) {
             ctx.begin(case);
